@@ -172,11 +172,13 @@ Proof.
   intros cv Hcv. split; [apply inv_new; exact Hcv|]. split; [|apply cl_new_cinv].
   unfold rto_inv, kcp_new. cbn [rx_minrto rx_rto]. unfold c_IKCP_RTO_MIN, c_IKCP_RTO_DEF. discriminate.
 Qed.
+Print Assumptions c18_new_endpoint.
 
 (* clean_history is decidable on concrete histories *)
 Theorem c18_clean_history_decide :
   forall ops k, clean_history_b k ops = true -> clean_history k ops.
 Proof. exact clean_history_b_sound. Qed.
+Print Assumptions c18_clean_history_decide.
 
 (* ---- examples ---- *)
 (* Send "123"; the first Update only opens the congestion window; the second transmits sn 0 at
